@@ -30,7 +30,44 @@ func registerExtra(e *Engine) {
 	I["strings.Contains"] = str2bool(strings.Contains)
 	I["strings.HasPrefix"] = str2bool(strings.HasPrefix)
 	I["strings.HasSuffix"] = str2bool(strings.HasSuffix)
-	I["strings.EqualFold"] = str2bool(strings.EqualFold)
+	// strings.EqualFold on byte-list strings: exact for ASCII content (letters A-Z fold to a-z, every other byte
+	// compares as is, strings of different length differ); a path on which some byte can be >= 0x80 is split off and
+	// ended as unsupported (Unicode case folding is not modelled), so the ASCII verdict is never extended to it
+	I["strings.EqualFold"] = func(x *Exec, caller *frame, fn *ssa.Function, args []Value) Value {
+		a, aok := args[0].(*Str)
+		b, bok := args[1].(*Str)
+		if !aok || !bok {
+			return x.ctx.Bool(strings.EqualFold(x.concreteStr(args[0], "string arg of strings.EqualFold"), x.concreteStr(args[1], "string arg of strings.EqualFold")))
+		}
+		conc := true
+		for _, t := range append(append([]*Term{}, a.B...), b.B...) {
+			if !t.IsConst() {
+				conc = false
+			}
+		}
+		if conc {
+			return x.ctx.Bool(strings.EqualFold(x.concreteStr(args[0], "strings.EqualFold"), x.concreteStr(args[1], "strings.EqualFold")))
+		}
+		ascii := x.ctx.True
+		for _, t := range append(append([]*Term{}, a.B...), b.B...) {
+			ascii = x.ctx.BAnd(ascii, x.ctx.ULt(t, x.ctx.BV(0x80, 8)))
+		}
+		if !x.branch(ascii) {
+			panic(x.unsupported("strings.EqualFold on a string with non-ASCII bytes (Unicode case folding is not modelled)"))
+		}
+		if len(a.B) != len(b.B) {
+			return x.ctx.False
+		}
+		lower := func(t *Term) *Term {
+			isUpper := x.ctx.BAnd(x.ctx.Not(x.ctx.ULt(t, x.ctx.BV('A', 8))), x.ctx.ULt(t, x.ctx.BV('Z'+1, 8)))
+			return x.ctx.Ite(isUpper, x.ctx.Or(t, x.ctx.BV(0x20, 8)), t)
+		}
+		r := x.ctx.True
+		for i := range a.B {
+			r = x.ctx.BAnd(r, x.ctx.Eq(lower(a.B[i]), lower(b.B[i])))
+		}
+		return r
+	}
 	str2str := func(f func(a string) string) Intrinsic {
 		return func(x *Exec, caller *frame, fn *ssa.Function, args []Value) Value {
 			return x.strConst(f(x.concreteStr(args[0], "string arg of "+fn.String())))
